@@ -9,6 +9,7 @@ import (
 	"hash/fnv"
 	"io"
 	"os"
+	"runtime"
 	"strings"
 	"sync"
 	"sync/atomic"
@@ -64,7 +65,19 @@ func NewEnv() *Env {
 		_ = f.Sync()
 		_ = f.Close()
 	}
-	return &Env{Mem: mem, FS: &CountFS{FS: mem, mem: mem, armAt: -1}}
+	e := &Env{Mem: mem, FS: &CountFS{FS: mem, mem: mem, armAt: -1}}
+	// regatta's pebble.WithFS drops the closer of the disk-health wrapper it puts around the file
+	// system, so every opened DB leaves one ticker goroutine behind that keeps the wrapper - and
+	// through it this disk - reachable for ever. Millions of executions each with its own disk would
+	// exhaust memory: once the harness no longer holds the Env (every Inst holds it), the wrapper is
+	// detached from the disk's content.
+	runtime.SetFinalizer(e, func(e *Env) {
+		fs := e.FS
+		fs.mu.Lock()
+		fs.FS, fs.mem, fs.Log = nil, nil, nil
+		fs.mu.Unlock()
+	})
+	return e
 }
 
 // Crash drops everything that was not made durable.
